@@ -33,7 +33,8 @@ var errScripted = errors.New("scripted adjudicator: Register fails (fault plan)"
 // and returns nil after Close.
 type subscription struct {
 	a      *adjudicator
-	k      int // channel index
+	k      int    // channel index
+	ep     *epoch // watching session it belongs to
 	events chan channel.AdjudicatorEvent
 	closed chan struct{}
 	once   sync.Once
@@ -45,7 +46,7 @@ func (a *adjudicator) Subscribe(_ context.Context, id channel.ID) (channel.Adjud
 	if k < 0 {
 		return nil, fmt.Errorf("scripted adjudicator: unknown channel %x", id[:4])
 	}
-	sub := &subscription{a: a, k: k, events: make(chan channel.AdjudicatorEvent, 4096), closed: make(chan struct{})}
+	sub := &subscription{a: a, k: k, ep: a.h.curEpoch(k), events: make(chan channel.AdjudicatorEvent, 4096), closed: make(chan struct{})}
 	a.mu.Lock()
 	a.subs[k] = sub
 	a.mu.Unlock()
